@@ -35,7 +35,11 @@ def _java(args, cwd, env=None, timeout=1800, xss="256m", xmx="4g", gc="-XX:+UseP
     e.pop("JAVA_TOOL_OPTIONS", None)
     if env:
         e.update(env)
-    cmd = ["java", gc, f"-Xss{xss}", f"-Xmx{xmx}", "-cp", JAR, "tlc2.TLC"] + args
+    # TLC unpacks its standard modules into a fresh directory under java.io.tmpdir on every start and leaves it
+    # behind: keep that inside the scratch directory of the run, which is removed afterwards
+    jtmp = os.path.join(cwd, ".jtmp")
+    os.makedirs(jtmp, exist_ok=True)
+    cmd = ["java", gc, f"-Djava.io.tmpdir={jtmp}", f"-Xss{xss}", f"-Xmx{xmx}", "-cp", JAR, "tlc2.TLC"] + args
     t0 = time.time()
     try:
         p = subprocess.run(
